@@ -18,7 +18,7 @@ inductive Carried (s : Srv) (rq : Req) : DevData → Prop
   | sni (dom : Str) (dd : DevData) :
       s.proto.isStdEncrypted = true → (s.proto = .doh → rq.userinfo = none) → dom ∈ s.domains →
       isImmediateSubdomain (lower rq.sni) dom = true →
-      parseDeviceData (rq.sni.take (rq.sni.length - dom.length - 1)) = some dd → Carried s rq dd
+      parseDeviceData (sniLabel rq.sni) = some dd → Carried s rq dd
   | edns (opts : List EOpt) (o : EOpt) :
       s.proto = .dns → rq.edns = some opts → o ∈ opts → o.code = cpeIDOption → Carried s rq (.id o.data)
 
@@ -116,7 +116,7 @@ theorem matchDomain_some {sni : Str} {doms : List Str} {d : Str} (h : matchDomai
 
 theorem sniStep_ok {s : Srv} {rq : Req} {dd : DevData} (h : deviceDataFromSNIStep s rq = .ok dd) :
     dd = .nothing ∨ ∃ dom ∈ s.domains, isImmediateSubdomain (lower rq.sni) dom = true ∧
-      parseDeviceData (rq.sni.take (rq.sni.length - dom.length - 1)) = some dd := by
+      parseDeviceData (sniLabel rq.sni) = some dd := by
   unfold deviceDataFromSNIStep at h
   split at h
   · injection h with h; exact Or.inl h.symm
@@ -369,8 +369,40 @@ theorem parseDeviceData_names {e : Str} {dd : DevData} {p : Profile} {d : Device
       exact Or.inl ⟨this, ho.symm⟩
     · cases h
 
-/-- What `isImmediateSubdomain` + the slice in `deviceDataFromCliSrvName` mean literally. -/
-theorem immediate_label {sni dom : Str} (h : isImmediateSubdomain (lower sni) dom = true) :
+theorem toLower_dot (c : Char) : c.toLower = '.' ↔ c = '.' := by
+  constructor
+  · intro h
+    unfold Char.toLower at h
+    split at h
+    · rename_i hc
+      have h2 := congrArg Char.val h
+      simp only at h2
+      have h3 := congrArg UInt32.toNat h2
+      have a1 : 'A'.val.toNat = 65 := by decide
+      have a2 : 'Z'.val.toNat = 90 := by decide
+      have a3 : ('a'.val - 'A'.val).toNat = 32 := by decide
+      have a4 : '.'.val.toNat = 46 := by decide
+      have l1 := UInt32.le_iff_toNat_le.mp hc.1
+      have l2 := UInt32.le_iff_toNat_le.mp hc.2
+      rw [UInt32.toNat_add, a3, a4] at h3
+      rw [a1] at l1; rw [a2] at l2
+      omega
+    · exact h
+  · intro h; subst h; decide
+
+theorem takeWhile_append_dot (a r : Str) (h : '.' ∉ a) : (a ++ '.' :: r).takeWhile (· ≠ '.') = a := by
+  induction a with
+  | nil => simp
+  | cons x a ih =>
+    have hx : x ≠ '.' := fun e => h (by simp [e])
+    have ha : '.' ∉ a := fun e => h (by simp [e])
+    have := ih ha
+    simp only [ne_eq, decide_not, List.cons_append, List.takeWhile_cons] at this ⊢
+    simp [hx, this]
+
+/-- What `isImmediateSubdomain` + the slice that `deviceDataFromCliSrvName` used before the fix
+(`cliSrvName[:len(cliSrvName)-len(matchedDomain)-1]`, on character lists) mean literally. -/
+theorem immediate_label_take {sni dom : Str} (h : isImmediateSubdomain (lower sni) dom = true) :
     lower sni = lower (sni.take (sni.length - dom.length - 1)) ++ '.' :: dom ∧
       '.' ∉ lower (sni.take (sni.length - dom.length - 1)) := by
   simp only [isImmediateSubdomain, Bool.and_eq_true, decide_eq_true_eq] at h
@@ -395,6 +427,41 @@ theorem immediate_label {sni dom : Str} (h : isImmediateSubdomain (lower sni) do
   rw [← hsplit, List.count_append, List.count_cons] at hcount
   simp at hcount
   exact List.count_eq_zero.mp (by omega)
+
+/-- Under `isImmediateSubdomain`, the text before the first dot (the fixed code) is the text in front
+of the matched domain (on character lists, where lowering keeps lengths). -/
+theorem sniLabel_eq_take {sni dom : Str} (h : isImmediateSubdomain (lower sni) dom = true) :
+    sniLabel sni = sni.take (sni.length - dom.length - 1) := by
+  obtain ⟨h1, h2⟩ := immediate_label_take h
+  generalize hk : sni.length - dom.length - 1 = k at h1 h2
+  have hsplit := List.take_append_drop k sni
+  have hl : lower sni = lower (sni.take k) ++ lower (sni.drop k) := by
+    unfold lower; rw [← List.map_append, hsplit]
+  rw [hl] at h1
+  have hd := List.append_cancel_left h1
+  have hno : '.' ∉ sni.take k := by
+    intro hm
+    apply h2
+    have : Char.toLower '.' ∈ lower (sni.take k) := List.mem_map_of_mem hm
+    simpa using this
+  cases hdr : sni.drop k with
+  | nil => rw [hdr] at hd; simp [lower] at hd
+  | cons c r =>
+    rw [hdr] at hd hsplit
+    simp only [lower, List.map_cons, List.cons.injEq] at hd
+    have hc : c = '.' := (toLower_dot c).mp hd.1
+    subst hc
+    unfold sniLabel
+    have := takeWhile_append_dot _ r hno
+    rw [hsplit] at this
+    exact this
+
+/-- What `isImmediateSubdomain` + the label cut in `deviceDataFromCliSrvName` mean literally. -/
+theorem immediate_label {sni dom : Str} (h : isImmediateSubdomain (lower sni) dom = true) :
+    lower sni = lower (sniLabel sni) ++ '.' :: dom ∧ '.' ∉ lower (sniLabel sni) := by
+  rw [sniLabel_eq_take h]; exact immediate_label_take h
+
+theorem sniLabel_prefix (sni : Str) : sniLabel sni <+: sni := List.takeWhile_prefix _
 
 theorem cleanGo_mem (rooted : Bool) (l st : List Str) (x : Str) (h : x ∈ cleanGo rooted l st) :
     x ∈ l ∨ x ∈ st := by
@@ -490,7 +557,7 @@ theorem carried_presents {s : Srv} {rq : Req} {dd : DevData} {p : Profile} {d : 
     exact .dohPath e1 hdoh hui (pathElements_segment hpe) (parseDeviceData_names hpd ho)
   | sni dom dd henc hu hdom himm hpd =>
     obtain ⟨h1, h2⟩ := immediate_label himm
-    exact .sni _ dom henc hu hdom (List.take_prefix _ _) h1 h2 (parseDeviceData_names hpd ho)
+    exact .sni _ dom henc hu hdom (sniLabel_prefix _) h1 h2 (parseDeviceData_names hpd ho)
   | edns opts o hdns hopts ho' hcode =>
     have : d.id = o.data := ho
     exact .edns opts o hdns hopts ho' hcode this.symm
